@@ -5,14 +5,17 @@ VARIABLES idv, last
 \* idv[k]: id token of the current object of kind k ("absent" before construction)
 Init == idv = [k \in Kinds |-> "absent"] /\ last = [op |-> "init"]
 
-Next == \E op \in {"ctor", "new_id"}, k \in Kinds, in \in Inputs :
+\* named: whether the constructor is given a name (an unnamed Section / Property is named by its id;
+\* a Document has no name)
+Next == \E op \in {"ctor", "new_id"}, k \in Kinds, in \in Inputs, nm \in BOOLEAN :
           /\ (op = "new_id" => idv[k] # "absent")
+          /\ (k = "doc" \/ op = "new_id" => nm)
           /\ LET r == RefPost(op, k, in, idv[k]) IN
                /\ idv' = [idv EXCEPT ![k] = IF r.id = "fresh" THEN "f" ELSE r.id]
-               /\ last' = [op |-> op, kind |-> k, in |-> in, out |-> r.out]
+               /\ last' = [op |-> op, kind |-> k, in |-> in, out |-> r.out, named |-> nm]
 Spec == Init /\ [][Next]_<<idv, last>>
 View == idv
 InvCanon == \A k \in Kinds : idv[k] # "bad"
-Emit == PrintT(ToJson([pre |-> idv, op |-> last'.op, kind |-> last'.kind, in |-> last'.in]))
+Emit == PrintT(ToJson([pre |-> idv, op |-> last'.op, kind |-> last'.kind, in |-> last'.in, named |-> last'.named]))
 
 ====
